@@ -219,6 +219,36 @@ def job_order(ctx, k):
                     ctx.close([float(Qo.w), float(Qo.x), float(Qo.y), float(Qo.z)], qq, 1e-15, 'same raw numbers, two storage orders: w, x, y, z', key)
                     ctx.close(np.asarray(Qo.rotate(np.array([1.0, 2.0, -3.0]))), rq.R(qq) @ np.array([1.0, 2.0, -3.0]), 1e-13, 'same raw numbers, two storage orders: rotate', key)
                     ctx.transitions += 1
+    # both product matrices of ONE object kept by the caller (asked alternately): each is still its own matrix afterwards
+    for i, q in enumerate(S[5::13]):
+        Qo = Quaternion(q.copy()); r = others[1]
+        try:
+            L1 = Qo.mult_L(); R1 = Qo.mult_R(); L2 = Qo.mult_L(); R2 = Qo.mult_R()
+        except Exception as ex:
+            ctx.fail('mult_L / mult_R raise', f'q=S[{5 + 13 * i}] k{k}', repr(ex)[:120], 'matrices'); continue
+        qq = rq.qunit(q)
+        for nm, Mx, exp in (('first mult_L', L1, rq.qmul(qq, r)), ('first mult_R', R1, rq.qmul(r, qq)), ('second mult_L', L2, rq.qmul(qq, r)), ('second mult_R', R2, rq.qmul(r, qq))):
+            ctx.close(np.asarray(Mx, float) @ r, exp, 1e-14, 'mult_L and mult_R of one object asked alternately and KEPT: each matrix is still its own product matrix', f'q=S[{5 + 13 * i}] {nm} k{k}')
+        ctx.expect(not np.shares_memory(np.asarray(L1), np.asarray(R1)) and not np.shares_memory(np.asarray(L1), np.asarray(L2)), 'mult_L / mult_R results share no memory with each other', f'q=S[{5 + 13 * i}] k{k}', 'shared', 'separate')
+    # objects that NumPy derives as REVERSED / strided views (q[::-1], np.flip(q)): their w, x, y, z, conjugate and products are those of their OWN elements
+    for i, q in enumerate(S[7::17]):
+        Qo = Quaternion(q.copy()); r = others[2]
+        for dn, mk in (('q[::-1]', lambda Q_: Q_[::-1]), ('np.flip(q)', lambda Q_: np.flip(Q_)), ('q[::-1].copy()', lambda Q_: Q_[::-1].copy()), ('np.roll(q, 1)', lambda Q_: np.roll(Q_, 1))):
+            try:
+                Dq = mk(Qo)
+            except Exception:
+                ctx.outcome(('derive-refused', dn)); continue
+            if not isinstance(Dq, Quaternion) or Dq.shape != (4,):
+                ctx.outcome(('derived-plain', dn)); continue
+            el = np.array(Dq, float)              # the derived object's own elements
+            key = f'q=S[{7 + 17 * i}] derived={dn} k{k}'
+            try:
+                ctx.close([float(Dq.w), float(Dq.x), float(Dq.y), float(Dq.z)], el, 1e-15, 'a reversed / rolled view of a Quaternion: w, x, y, z are its own elements', key)
+                ctx.close(np.asarray(Dq.product(r.copy()), float), rq.qmul(el, r), 1e-14, 'a reversed / rolled view of a Quaternion: product = Hamilton product of its own elements', key)
+                ctx.close(np.asarray(Dq.conjugate, float), rq.qconj(el), 1e-15, 'a reversed / rolled view of a Quaternion: conjugate of its own elements', key)
+                ctx.close(np.asarray(Dq.mult_L(), float) @ r, rq.qmul(el, r), 1e-14, 'a reversed / rolled view of a Quaternion: mult_L of its own elements', key)
+            except Exception as ex:
+                ctx.fail('operation on a reversed / rolled view of a Quaternion raises', key, repr(ex)[:120], 'completes')
     ctx.cls('order:same-raw-numbers')
     # objects derived from a scalar-last quaternion without going through the constructor keep their storage order
     import copy as _copy
